@@ -336,7 +336,7 @@ def part(ctx, harness_future=None):
                    {'failing_input': small, 'replay_cmd': 'printf "%s\\n" | %s -v' % ('\\n'.join(small), exe), 'first_ref_line': l[:1000]})
     elif dis:
         search(ctx, exe, 3000)
-    # ---------------- known finding: Matrix_ deep copy of a one-column/one-row block keeps a 1-d helper; a later 2-d resize aliases elements
+    # ---------------- Matrix_ deep copy of a one-column/one-row block given a 2-d size: known finding before fix e58b46bd, regression stream after it
     WITNESS = ['S d', 'new 0 3 3 1', 'view 0 blk 0 1 3 1', 'copy 1 0', 'asg 2 2 2 11 12 13 14', 'E']      # = refut_ops of theorem C25_assign_to_copied_column_block_refuted
     dseqs = [WITNESS] + [gen_defect(ctx.rng, ctx.rng.choice(['d', 'f', 'c', 'v']))[0] for _ in range(40 if not thorough else 400)]
     rcw, ow, ew = sh([exe], input='\n'.join(WITNESS) + '\n', timeout=60)
